@@ -265,3 +265,92 @@ def gen_parse_type(rng, depth):
     if k == 'assoc': return "<T as Iterator>::Item", False
     if k == 'refref': return rng.choice(["&'a &'a u8", "Option<&'a &'a u8>", "&&u8"]), False
     raise ValueError(k)
+
+
+# ---------------------------------------------------------------------------------------------------------------------------------
+# whole struct ITEMS for the tie of the declaration-parser model (coq/parse/ParseDecl.v): only their SYNTAX matters (the dump is written
+# during macro expansion, before name resolution); `ok` = inside what the macro documents as supported, where a parser panic is a failure
+ATTR_OK = ['#[difference(skip)]', '#[difference(skip,)]', '#[difference( recurse )]', '#[difference(recurse, setter)]', '#[difference()]',
+           '#[difference(collection_strategy = "ordered_array_like")]', '#[difference(collection_strategy="unordered_array_like",)]',
+           '#[difference(map_equality = "key_only", collection_strategy = "unordered_map_like")]', '#[difference(setter_name = "a b")]',
+           '#[difference(skip_setter)]', '#[difference(setter)]\n#[difference(skip)]', '#[difference{skip}]',
+           '#[doc = "some text"]', '/// a doc comment', '/** block */', '#[allow(dead_code)]', '#[cfg_attr(all(), allow(unused))]', '#[doc(hidden)]', '#[rustfmt::skip]']
+ATTR_ODD = ['#[difference(a = "x" b, c)]', '#[difference(a b)]', '#[difference(a = 1)]', '#[difference(x = "1"; y)]', '#[difference]', '#[difference = "x"]',
+            '#[difference(,)]', '#[difference(a,,b)]', '#[difference(a = "x" = "y")]', '#[difference("lit")]', '#[difference(a = b)]', '#[difference(a; "v", b)]']
+STRUCT_ATTR_OK = ['#[difference(setters)]', '#[difference(expose)]', '#[difference(expose = "Renamed")]', '#[difference(setters, expose)]', '#[doc = "s"]', '#[allow(unused)]', '/// doc']
+BOUNDS = ['Clone', 'Default', 'std::fmt::Debug', 'Into<u8>', 'PartialEq<u8>', 'Send', 'core::marker::Sync']
+
+def gen_item(rng, i):
+    """(source of one struct item named I<i>, ok)"""
+    ok = True
+    name = f"I{i}"
+    def attrs(pool_ok, k):
+        nonlocal ok
+        out = []
+        for _ in range(k):
+            if rng.random() < 0.06: out.append(rng.choice(ATTR_ODD)); ok = False
+            else: out.append(rng.choice(pool_ok))
+        return out
+    sattrs = attrs(STRUCT_ATTR_OK, rng.choice([0, 0, 1, 2]))
+    vis = rng.choice(['', '', 'pub ', 'pub ', 'pub ', 'pub ', 'pub ', 'pub ', 'pub ', 'pub(crate) '])
+    if vis == 'pub(crate) ': ok = False          # "pub(whatever) is not supported yet": the entry point says so itself
+    shape = rng.choice(['named'] * 8 + ['unit', 'tuple'])
+    params, used_lt = [], []
+    for k, lt in enumerate(['a', 'b', 'c'][:rng.choice([0, 0, 1, 2, 3])]):
+        b = [x for x in used_lt if rng.random() < 0.5]
+        if b and rng.random() < 0.3: b = b + [b[0]]                       # a repeated bound
+        params.append(f"'{lt}" + (': ' + ' + '.join("'" + x for x in b) if b else '')); used_lt.append(lt)
+    tnames = ['T', 'U', 'V'][:rng.choice([0, 1, 1, 2, 3])]
+    defaults_started = False
+    for t in tnames:
+        bs = [rng.choice(BOUNDS + (["'" + used_lt[0]] if used_lt else [])) for _ in range(rng.choice([0, 0, 1, 2, 3]))]
+        if bs and rng.random() < 0.08: bs.append('?Sized'); ok = False
+        s = t + (': ' + ' + '.join(bs) if bs else '')
+        if defaults_started or rng.random() < 0.2:
+            s += ' = ' + rng.choice(['u8', 'Vec<u8>', '(u8, bool)', '[u8; 2]']); defaults_started = True
+        params.append(s)
+    if rng.random() < 0.4:
+        params.append('const N: usize' + (rng.choice([' = 4', ' = 0', ' = M']) if defaults_started or rng.random() < 0.3 else ''))
+    gen = ''
+    if params or rng.random() < 0.1:
+        gen = '<' + ', '.join(params) + (',' if params and rng.random() < 0.15 else '') + '>'
+    where = ''
+    if gen and shape == 'named' and rng.random() < 0.5:
+        items = []
+        for _ in range(rng.choice([0, 1, 1, 2, 3])):
+            c = rng.random()
+            tn = rng.choice(tnames) if tnames else 'u8'
+            bs = ' + '.join(rng.choice(BOUNDS) for _ in range(rng.choice([1, 1, 2])))
+            if c < 0.35: items.append(f"{tn}: {bs}")                       # merges into the declared parameter
+            elif c < 0.55: items.append(f"Vec<{tn}>: {bs}")
+            elif c < 0.7: items.append(f"({tn}, u8): {bs}")
+            elif c < 0.8: items.append(f"[{tn}; 2]: {bs}")
+            elif c < 0.87 and used_lt: items.append(f"{tn}: '{used_lt[0]}")
+            elif c < 0.93: items.append(f"&'static {tn}: {bs}"); ok = False  # a reference as the bounded type: unimplemented!() in next_generic
+            elif used_lt: items.append(f"'{used_lt[0]}: 'static"); ok = False
+            else: items.append(f"std::vec::Vec<{tn}>: {bs}")
+        # the same non-parameter type bounded twice: the first becomes a where bound, the second arrives as a plain generic ("mismatched generic types")
+        keys = [x.split(':')[0] for x in items]
+        if any(keys.count(k) > 1 and k not in tnames for k in keys): ok = False
+        where = ' where ' + ', '.join(items) + (',' if items and rng.random() < 0.3 else '')
+    def field(k, named):
+        nonlocal ok
+        t, tok = gen_parse_type(rng, rng.choice([0, 1, 2]))
+        for _ in range(3):
+            if tok or rng.random() < 0.15: break
+            t, tok = gen_parse_type(rng, rng.choice([0, 1, 2]))
+        ok = ok and tok
+        fa = attrs(ATTR_OK, rng.choice([0, 0, 1, 2]))
+        v = rng.choice(['', 'pub ', 'pub(crate) ', 'pub(in crate) '])
+        nm = (rng.choice(['r#type', 'r#match']) if rng.random() < 0.1 else f"f{k}") + ': ' if named else ''
+        return '\n'.join(fa) + ('\n' if fa else '') + v + nm + t         # one per line: a `///` comment runs to the end of its line
+    nf = rng.choice([0, 1, 2, 3, 4])
+    if shape == 'unit':
+        body = ';'
+    elif shape == 'tuple':
+        ok = False          # C17 is about structs with named fields (and `pub (A, B)` in a tuple struct is read as a visibility restriction)
+        body = '(' + ', '.join(field(k, False) for k in range(nf)) + (',' if nf and rng.random() < 0.3 else '') + ');'
+    else:
+        body = ' { ' + ', '.join(field(k, True) for k in range(nf)) + (',' if nf and rng.random() < 0.5 else '') + ' }'
+    src = '\n'.join(sattrs) + ('\n' if sattrs else '') + f"{vis}struct {name}{gen}{where}{body}"
+    return src, ok
